@@ -128,11 +128,14 @@ def run_impl(trial):
     subs = [s.sub for s in senders]
     cur = [None]
     # hook: which source is being processed (for oob attribution) and request log
+    uid_of = {s.unique_id: idx for idx, s in enumerate(senders)}
     for idx, s in enumerate(senders):
         if s.push is not None:
             def sm(msg, flags=0, idx=idx):
                 e = json.loads(bytes(msg[0]).decode())
                 log.append({'k': 'req', 'i': idx, 'mid': e['mid'], 'eph': e.get('eph', 0), 'new': bool(e.get('new', False))})
+                # the publisher keys its client table by client id + the CONNECTION's unique id: a request must carry the uid of the connection it travels on
+                if uid_of.get(e.get('uid')) != idx: log[-1]['uid_of'] = uid_of.get(e.get('uid'), -1)
             s.push.send_multipart = sm
         orig = s.sub.recv_multipart
         def rm(orig=orig, idx=idx):
@@ -207,6 +210,10 @@ def oracles(trial, calls):
                     key = 'sync-request-marked-ephemeral' if srcs[o['i']]['eph'] == 0 else 'ephemeral-request-marked-sync'
                     (v['C04'] if srcs[o['i']]['eph'] == 0 else v['C05']).append((key, f"request to source {o['i']} (eph={srcs[o['i']]['eph']}) carries eph={o['eph']}"))
                 if srcs[o['i']]['eph'] == 2: v['C05'].append(('request-to-doubly-ephemeral', f"request sent to ?? source {o['i']}"))
+                if 'uid_of' in o:
+                    what = (f"request on the connection of source {o['i']} (eph={srcs[o['i']]['eph']}) carries the unique id of the connection of source {o['uid_of']}: two "
+                            f"attachments to one publisher (e.g. 'addr;main' and 'addr?;dbg') then share one entry of its client table, the later request's eph flag wins")
+                    v['C05'].append(('request-carries-other-connection-uid', what)); v['C04'].append(('request-carries-other-connection-uid', what))
             if o['k'] == 'exc': v['C01'].append(('exception', o['e']))
             if o['k'] != 'ret': continue
             rid = o['id']
